@@ -19,6 +19,8 @@ CLAIMED = {
          "Observation through the public handle_event/state/facade/sensor properties (plus guarded reads of _spa); a delivery chain cut because the client's own handler was cancelled owes nothing further; known findings f/j listed in known_findings.json."),
  "C09": ("exploration", "3.C09", "Seeded search over fault scripts (healthy/lossy/blackout/one-way/RF-error/reboot phases, resets and set-spa-info at drawn or event-triggered instants, drawn tables, stalls, handler suspension) followed by a heal; bounded-liveness oracle: CONNECTED with a mirroring facade within a bound derived from the run's tables, total blackouts reported within the detection bound, the sequence-pump task alive at every sample.",
          "Bounds are deliberate over-approximations from the tables; no obligation while faults flow; known findings b/c listed in known_findings.json."),
+ "C10": ("fault_enumeration", "3.C10", "Crash-point enumeration inside seeded schedules: 7 scenarios x scenario seeds are run once to count loop callbacks N, then re-run with async_reset / async_set_spa_info / context exit injected after callback k (quick: seeded stratified sample of k; thorough: every k for scenarios up to 3000 callbacks, first 1500 + stride beyond), plus 5/20/50 consecutive reconnect cycles; oracle: transports closed, connection tasks done within 1 s, no library task after exit, no observer call or event from the abandoned connection during 300 s of late traffic and timers, bounded endpoints/tasks over cycles.",
+         "'Promptly' = 1 s + injected stall; a callback boundary is an await point of some task; observers are harness callbacks registered via the public watch()."),
 }
 PENDING = {}
 NA = {
